@@ -1,5 +1,6 @@
 import XmppVerif.Drv.Core
 import XmppVerif.Drv.C17
+import XmppVerif.Drv.C19
 /-
 `driver <Cxx>`: line filter. stdin: `begin <id> [variant…]`, then op lines
 `f1<TAB>f2…<TAB>=><TAB>impl-observation`, then `end`. One output line per input line.
@@ -7,7 +8,8 @@ import XmppVerif.Drv.C17
 open XmppVerif.Drv
 
 def handlers : List (String × Handler) := [
-  ("C17", XmppVerif.Drv.C17.handler)
+  ("C17", XmppVerif.Drv.C17.handler),
+  ("C19", XmppVerif.Drv.C19.handler)
 ]
 
 def splitLine (line : String) : List String × String :=
